@@ -42,7 +42,7 @@ def applyAllText (mt : Str → Str → Bool) (g : PGraph Str) (rules : List Rule
   | .ok errorMessages => if !errorMessages.isEmpty then .fail (joinWith ['\n'] errorMessages) else .pass
 
 /-- `DiagramRule.assert_applies` given the file content (`none`: no file configured), with the message text
-    (the pipeline of `diagramAssert`) -/
+    (the pipeline of `diagramAssert`, with the check of the repair of F-C13c before the rules are applied) -/
 def diagramAssertText (mt : Str → Str → Bool) (content : Option Str) (base : Option Str) (shouldOnly : Bool)
     (g : PGraph Str) : AggTextVerdict :=
   match content with
@@ -50,6 +50,8 @@ def diagramAssertText (mt : Str → Str → Bool) (content : Option Str) (base :
   | some c =>
     match pumlParse c with
     | .error k => .err k
-    | .ok p => applyAllText mt g (diagramRules shouldOnly (prefixParsed p base))
+    | .ok p =>
+      if diagramMissing (prefixParsed p base) g then .err .lookupError
+      else applyAllText mt g (diagramRules shouldOnly (prefixParsed p base))
 
 end Pta
